@@ -164,8 +164,15 @@ class Source:
                 b = getattr(n, fld, None)
                 if isinstance(b, list) and b and isinstance(b[0], ast.stmt):
                     lists.append(b)
-        lists.sort(key=lambda b: b[0].lineno)
         src = self.module_src[fi.module]
+
+        def first_match_size(b):
+            for st in b:
+                if spec["first"] in _segment(src, st):
+                    return (st.end_lineno or st.lineno) - st.lineno
+            return 10 ** 9
+        # innermost statement list first: the one whose matching statement is the smallest
+        lists.sort(key=lambda b: (first_match_size(b), b[0].lineno))
         for b in lists:
             texts = [_segment(src, st) for st in b]
             i = next((k for k, t in enumerate(texts) if spec["first"] in t), None)
